@@ -447,7 +447,7 @@ def numpy_call(it, fn, d, e, env, argv, kw, args):
             return el.copy(sh=(ax,) + tuple(el.sh) if el.sh is not None else None, cval=None)
         return unk(fn + " of " + (fmt(a0) if a0 else "?"))
     if fn in ("zeros", "ones", "empty", "full", "eye", "identity", "zeros_like", "ones_like", "full_like", "empty_like"):
-        zero = 0.0 if fn in ("zeros", "zeros_like") else None  # an array of zeros is zero in every dimension
+        zero = 0.0 if fn in ("zeros", "zeros_like") else (1.0 if fn in ("ones", "eye", "identity") else None)  # zeros are zero in every dimension; ones / the identity are the pure number one
         if fn.endswith("_like") and a0 is not None and a0.is_numlike:
             return wild(a0.sh, zero)
         sh = None
